@@ -3,6 +3,7 @@ from __future__ import annotations
 
 import copy
 import os
+import itertools
 import random
 
 from hypothesis import strategies as st
@@ -37,6 +38,55 @@ def faults_for(n_octets: int, excluded_bits: set, rng: random.Random, patterns_p
                 yield s, L, (1 << (L - 1)) | (mid << 1) | 1
 
 
+_NEAR = {}
+NEAR_TARGETS = [1 << j for j in range(16)] + [0x00FF, 0xFF00, 0x8001, 0xFFFF, 0x1021]
+
+
+def near_zero_faults(raw: bytes, excluded_bits: set):
+    """Bursts (inside one 16-bit window, octet aligned) that leave a checksum residue *close to* zero: exactly one bit set, one
+    octet zero, ... .  A checker that looks at part of the residue only lets exactly these through; random bursts hit one with
+    probability 2^-16 each.  CRC-16 is linear in the error pattern and the residue of a pattern depends only on its distance d
+    from the end of the buffer, so the 16 x 16 system over GF(2) is solved once per d.  Yields (octet position, corrupted buffer, target)."""
+    from ..ref.crc import crc16_fast
+
+    n = len(raw)
+    positions = [pos for pos in range(n - 1) if not any(b in excluded_bits for b in range(pos * 8, pos * 8 + 16))]
+    if len(positions) > 10 and os.environ.get("VERIF_TIER_ACTIVE") != "thorough":
+        # quick tier: the trailer, the octet before it, the first admissible window and six windows chosen by the packet's own octets
+        pick = random.Random(raw)
+        positions = sorted({positions[0], positions[-1], positions[-2], positions[-3]} | set(pick.sample(positions, 6)))
+    for pos in positions:
+        d = n - pos
+        if d not in _NEAR:
+            c0 = crc16_fast(bytes(d))
+            cols = [crc16_fast((1 << bit).to_bytes(2, "big") + bytes(d - 2)) ^ c0 for bit in range(16)]
+            sol = {}
+            for target in NEAR_TARGETS:
+                rows = [(cols[i], 1 << i) for i in range(16)]
+                want, x = target, 0
+                for b in range(15, -1, -1):
+                    piv = next((r for r in rows if (r[0] >> b) & 1), None)
+                    if piv is None:
+                        continue
+                    rows = [r if r is piv or not ((r[0] >> b) & 1) else (r[0] ^ piv[0], r[1] ^ piv[1]) for r in rows]
+                    rows.remove(piv)
+                    if (want >> b) & 1:
+                        want ^= piv[0]
+                        x ^= piv[1]
+                if want:
+                    raise RuntimeError("near_zero_faults: singular system")
+                sol[target] = x
+            _NEAR[d] = sol
+        for target, x in _NEAR[d].items():
+            bad = bytearray(raw)
+            bad[pos] ^= x >> 8
+            bad[pos + 1] ^= x & 0xFF
+            bad = bytes(bad)
+            if crc16_fast(bad) != target or bad == raw:  # the construction is checked against the reference CRC: a slip here is a harness error
+                raise RuntimeError(f"near_zero_faults: constructed residue {crc16_fast(bad):#06x} != {target:#06x}")
+            yield pos, bad, target
+
+
 def apply_fault(buf: bytes, start: int, L: int, pattern: int) -> bytes:
     out = bytearray(buf)
     for i in range(L):
@@ -44,6 +94,12 @@ def apply_fault(buf: bytes, start: int, L: int, pattern: int) -> bytes:
             bit = start + i
             out[bit // 8] ^= 0x80 >> (bit % 8)
     return bytes(out)
+
+
+def crc16_is_zero(raw: bytes) -> bool:
+    from ..ref.crc import crc16_fast
+
+    return crc16_fast(raw) == 0
 
 
 def run_faults(devs, raw: bytes, excluded_bits: set, decoders, case, tier_hint, verdict=None):
@@ -54,8 +110,9 @@ def run_faults(devs, raw: bytes, excluded_bits: set, decoders, case, tier_hint, 
     patterns = case.get("patterns", 1)
     thorough = os.environ.get("VERIF_TIER_ACTIVE") == "thorough"
     patterns = 4 if thorough else 1
-    for s, L, pat in faults_for(len(raw), excluded_bits, rng, patterns, all_small=thorough and len(raw) <= 24):
-        bad = apply_fault(raw, s, L, pat)
+    near = ((pos * 8, 16, target, bad) for pos, bad, target in near_zero_faults(raw, excluded_bits)) if crc16_is_zero(raw) else ()
+    plain = ((s, L, pat, apply_fault(raw, s, L, pat)) for s, L, pat in faults_for(len(raw), excluded_bits, rng, patterns, all_small=thorough and len(raw) <= 24))
+    for s, L, pat, bad in itertools.chain(near, plain):
         n += 1
         for dname, dec in decoders:
             try:
@@ -317,12 +374,16 @@ def check_mutated(case):
     rng = random.Random(case["burst_seed"])
     ok = allowed()
     nbits = len(raw) * 8
-    for b in range(nbits):
-        L = rng.choice([1, 1, 2, 3, 8, 15, 16])
-        if b + L > nbits or any((b + i) in excluded for i in range(L)):
-            continue
-        pat = 1 if L == 1 else (1 << (L - 1)) | (rng.getrandbits(L - 2) << 1) | 1
-        bad = apply_fault(raw, b, L, pat)
+    def light():
+        for b in range(nbits):
+            L = rng.choice([1, 1, 2, 3, 8, 15, 16])
+            if b + L > nbits or any((b + i) in excluded for i in range(L)):
+                continue
+            pat = 1 if L == 1 else (1 << (L - 1)) | (rng.getrandbits(L - 2) << 1) | 1
+            yield b, L, apply_fault(raw, b, L, pat)
+
+    near = ((pos * 8, 16, bad) for pos, bad, _ in near_zero_faults(raw, excluded)) if crc16_is_zero(raw) else ()
+    for b, L, bad in itertools.chain(near, light()):
         n += 1
         try:
             dec[0][1](bad)
